@@ -146,7 +146,11 @@ def pkgo_d(lines):
           "// PF is restricted."] + ann + ["func PF(n int) int { return n }", "", "// PM is restricted."] + ann + \
          ["func (s S) PM(n int) int { return n }", "", "// Q and QF are not annotated.", "type Q struct{ X int }", "",
           "func QF(n int) int { return n }", "", "// PS is open to the using packages of the scenarios; its method PSM has a list of its own.",
-          "// @packageonly u, v, m/u, m/vv", "type PS struct{}", "", "// PSM is restricted."] + ann + ["func (p PS) PSM(n int) int { return n }", ""]
+          "// @packageonly u, v, m/u, m/vv", "type PS struct{}", "", "// PSM is restricted."] + ann + ["func (p PS) PSM(n int) int { return n }", "",
+          "// hid is unexported; its value Default and its method HM are reachable from outside.", "type hid struct{}", "",
+          "// Default is the shared instance.", "var Default hid", "", "// HM is restricted."] + ann + ["func (h hid) HM(n int) int { return n }", "",
+          "// state is restricted and unexported; State names it for other packages."] + ann + ["type state struct{ X int }", "",
+          "// State is an exported alias.", "type State = state", ""]
     return "\n".join(ls) + "\n"
 
 
@@ -196,6 +200,8 @@ def build_pkgo(sc, sid):
                 "methCall": "_ = s%d.PM(%d)" % (n, n),
                 "methCallVar": "_ = gs.PM(%d)" % n,
                 "methCallPS": "_ = w%d.PSM(%d)" % (n, n),
+                "methCallHidden": "_ = %sDefault.HM(%d)" % (q, n),
+                "typeVarHidden": "var v%d %sState" % (n, q),
                 "methCallPromoted": "_ = e%d.PM(%d)" % (n, n),
                 "methValuePromoted": "f%d := e%d.PM" % (n, n),
                 "methValue": "f%d := s%d.PM" % (n, n),
@@ -206,7 +212,7 @@ def build_pkgo(sc, sid):
             }[r]
             if r in ("funcValue", "methValue", "methValuePromoted"):
                 post = ["_ = f%d" % n]
-            if r == "typeVar":
+            if r in ("typeVar", "typeVarHidden"):
                 post = ["_ = v%d" % n]
             out.tagged(key, stmt)
             for l in post:
